@@ -165,8 +165,8 @@ Proof.
   - fold (acos x). assert (E : PI / 2 - atan (x / sqrt (1 - x²)) = acos x) by (unfold acos; destruct (Rle_dec x (-1)); [lra|]; destruct (Rle_dec 1 x); [lra|reflexivity]).
     rewrite E, cos_acos by lra. exact H.
 Qed.
-Ltac enc := ev; decs; cbv iota beta; interval with (i_prec 70).
-Ltac enc_acos := ev; decs; cbv iota beta; try (apply cos_acos_near; [|apply COS_bound]); interval with (i_prec 70).
+Ltac enc := ev; decs; cbv iota beta; interval with (i_prec 120).
+Ltac enc_acos := ev; decs; cbv iota beta; try (apply cos_acos_near; [|apply COS_bound]); interval with (i_prec 120).
 """
 
 
@@ -258,30 +258,35 @@ def run(ctx: Ctx):
     # ================================================================== 1. interval correspondence, harmonics
     Lc = 6 if quick else 10
     angles = structured_angles(ctx.rng, 3 if quick else 8)
-    th = [a[1] for a in angles]
-    ph = [a[2] for a in angles]
-    A, errA = safe(impl_A, Lc, th, ph)
-    B, errB = safe(impl_B, Lc, th, ph)
-    n = (Lc + 1) ** 2
-    for nm, arr, err in (("generate_real_spherical_harmonics", A, errA), ("generate_real_spherical_harmonics_scipy", B, errB)):
-        if arr is None or arr.shape != (n, len(angles)):
-            pend.add(0, "corr_shape", f"shape:{nm}:{Lc}", err or str(getattr(arr, "shape", None)),
-                     f"{nm}({Lc}, theta, phi) with {len(angles)} points: {err or 'shape ' + str(arr.shape)}, expected shape {(n, len(angles))}",
-                     {"kind": "shape", "fn": nm, "l_max": Lc, "theta": th, "phi": ph})
+    # every (l, m) up to l = 6 at every angle pair; thorough: additionally l = 7..10 at a sub-list of the angles
+    hi_angles = [a for a in angles if a[0] in ("pole0-negtheta", "polepi", "equator", "theta-negative", "theta>2pi", "near-pole", "random0")]
+    passes = [(6, angles, 0)] + ([] if quick else [(Lc, hi_angles, 7)])
     cases, meta = [], []
-    if A is not None and A.shape == (n, len(angles)):
-        for j, (tag, t, p) in enumerate(angles):
-            for i in range(n):
+    for Lp, angs, lmin in passes:
+        th = [a[1] for a in angs]
+        ph = [a[2] for a in angs]
+        A, errA = safe(impl_A, Lp, th, ph)
+        B, errB = safe(impl_B, Lp, th, ph)
+        n = (Lp + 1) ** 2
+        for nm, arr, err in (("generate_real_spherical_harmonics", A, errA), ("generate_real_spherical_harmonics_scipy", B, errB)):
+            if arr is None or arr.shape != (n, len(angs)):
+                pend.add(0, "corr_shape", f"shape:{nm}:{Lp}", err or str(getattr(arr, "shape", None)),
+                         f"{nm}({Lp}, theta, phi) with {len(angs)} points: {err or 'shape ' + str(arr.shape)}, expected shape {(n, len(angs))}",
+                         {"kind": "shape", "fn": nm, "l_max": Lp, "theta": th, "phi": ph})
+        if A is None or A.shape != (n, len(angs)):
+            continue
+        for j, (tag, t, p) in enumerate(angs):
+            for i in range(lmin * lmin, n):
                 l, m = lm_of(i)
                 y = float(A[i, j])
                 ctx.case(("sph", tag, l, m))
                 ctx.count("sph:" + tag.rstrip("0123456789"))
                 if y != y or abs(y) == float("inf"):
                     pend.add(l, "corr_sph_recursion", f"sph:A:{l}:{m}:{t!r}:{p!r}", repr(y), f"generate_real_spherical_harmonics: (l,m)=({l},{m}) at theta={t!r}, phi={p!r} is {y!r}",
-                             {"kind": "sph", "impl": "A", "l_max": Lc, "l": l, "m": m, "theta": t, "phi": p})
+                             {"kind": "sph", "impl": "A", "l_max": Lp, "l": l, "m": m, "theta": t, "phi": p})
                     continue
-                cases.append((f"Rabs (nth {i} (sph_model {Lc} {lit(t)} {lit(p)}) 0 - {lit(y)}) <= {tol_lit(y)}", "enc"))
-                meta.append(("sph", j, i))
+                cases.append((f"Rabs (nth {i} (sph_model {Lp} {lit(t)} {lit(p)}) 0 - {lit(y)}) <= {tol_lit(y)}", "enc"))
+                meta.append(("sph", Lp, t, p, i, y))
                 # both implementations against each other, exactly (rationals): |A - B| <= 5e-10 (1 + |A|)
                 if B is not None and B.shape == A.shape:
                     yb = float(B[i, j])
@@ -290,13 +295,14 @@ def run(ctx: Ctx):
                         who = "scipy" if not close(yb, yo) else "recursion"
                         pend.add(l, "corr_sph_scipy", f"sph:B:{l}:{m}:{t!r}:{p!r}", yb,
                                  f"(l,m)=({l},{m}) at theta={t!r}, phi={p!r}: SciPy-based routine gives {yb!r}, recursion gives {y!r}, definition {yo!r} ({who} is off)",
-                                 {"kind": "sph", "impl": "B", "l_max": Lc, "l": l, "m": m, "theta": t, "phi": p, "expected": yo})
-        ctx.sample({"l_max": Lc, "theta": th[3], "phi": ph[3], "row": 7, "(l,m)": lm_of(7), "recursion": float(A[7, 3]), "scipy": None if B is None else float(B[7, 3]),
-                    "goal": cases[0][0][:160] if cases else None})
+                                 {"kind": "sph", "impl": "B", "l_max": Lp, "l": l, "m": m, "theta": t, "phi": p, "expected": yo})
+        if Lp == 6:
+            ctx.sample({"l_max": Lp, "theta": th[3], "phi": ph[3], "row": 7, "(l,m)": lm_of(7), "recursion": float(A[7, 3]), "scipy": None if B is None else float(B[7, 3]),
+                        "goal": cases[0][0][:160] if cases else None})
 
     # ================================================================== 2. derivative routine vs model
     Ld = 4 if quick else 6
-    dang = [a for a in angles if a[0] in ("pole0", "polepi", "equator", "theta-negative", "theta>2pi", "near-pole")] + angles[-(2 if quick else 4):]
+    dang = [a for a in angles if a[0] in ("pole0", "polepi", "equator", "theta-negative", "near-pole") or (a[0] == "theta>2pi" and not quick)] + angles[-(1 if quick else 2):]
     dth, dph = [a[1] for a in dang], [a[2] for a in dang]
     D, errD = safe(impl_D, Ld, dth, dph)
     nd = (Ld + 1) ** 2
@@ -317,10 +323,12 @@ def run(ctx: Ctx):
                     cases.append((f"Rabs ({proj} (nth {i} (dsph_model sre0 sim0 {Ld} {lit(t)} {lit(p)}) (0, 0)) - {lit(y)}) <= {tol_lit(y, Fraction(1, 10 ** 9))}", "enc"))
                     meta.append(("der", j, i, k))
         ctx.count("derivative_entries", 2 * nd * len(dang))
+        ctx.sample({"routine": "generate_derivative_real_spherical_harmonics", "l_max": Ld, "theta": dth[3], "phi": dph[3], "(l,m)": lm_of(6),
+                    "d/dtheta": float(D[0, 6, 3]), "d/dphi": float(D[1, 6, 3])})
 
     # ================================================================== 3. solid harmonics vs model
     Ls = 4
-    spts = [(0.0, 0.5, 1.0), (1.0, -2.5, 0.0), (2.5, 7.90625, 2.0), (0.3125, 0.6875, math.pi / 2), (dy(ctx.rng.uniform(0.1, 3)), dy(ctx.rng.uniform(-7, 7)), dy(ctx.rng.uniform(0.1, 3.0)))]
+    spts = [(0.0, 0.5, 1.0), (2.5, -2.5, 0.0), (0.3125, 7.90625, math.pi / 2), (dy(ctx.rng.uniform(0.1, 3)), dy(ctx.rng.uniform(-7, 7)), dy(ctx.rng.uniform(0.1, 3.0)))]
     S, errS = safe(impl_S, Ls, spts)
     if S is None or S.shape != ((Ls + 1) ** 2, len(spts)):
         pend.add(0, "corr_shape", f"shape:solid:{Ls}", errS or str(getattr(S, "shape", None)), f"solid_harmonics({Ls}, ...): {errS or 'shape ' + str(S.shape)}",
@@ -367,6 +375,8 @@ def run(ctx: Ctx):
         cases.append((f"Rabs (fst (fst ({g})) - {lit(r)}) <= {tol} /\\ Rabs (snd (fst ({g})) - {lit(t)}) <= {tol} /\\ "
                       f"Rabs (cos (snd ({g})) - cos {lit(p)}) <= {tol}", "repeat split; enc_acos"))
         meta.append(("cart", pt, c, [r, t, p]))
+        if len(meta) % 7 == 0:
+            ctx.sample({"routine": "convert_cart_to_sph", "point": pt, "center": c, "(r,theta,phi)": [r, t, p]})
     ctx.count("cart_points", len(cpts))
 
     # ================================================================== 5. gradient conversion vs model
@@ -387,7 +397,7 @@ def run(ctx: Ctx):
     # ---------------------------------------------------------------- run the Coq cases
     bad = []
     if model_ok and cases:
-        bad = ctx.coq_tactic_cases("C08_cases", HEADER, cases, shard=40, timeout=1500)
+        bad = ctx.coq_tactic_cases("C08_cases", HEADER, cases, shard=40 if quick else 16, timeout=3000)
     elif cases:
         ctx.notes.append("model does not compile: interval correspondence skipped, implementation checked against the oracle only")
     mark("coq_cases")
@@ -396,13 +406,12 @@ def run(ctx: Ctx):
     for idx in bad:
         mt = meta[idx]
         if mt[0] == "sph":
-            _, j, i = mt
+            _, Lp, t, p, i, y = mt
             l, m = lm_of(i)
-            tag, t, p = angles[j]
-            y, yo = float(A[i, j]), float(o_Y(mp, l, m, mp.mpf(t), mp.mpf(p)))
+            yo = float(o_Y(mp, l, m, mp.mpf(t), mp.mpf(p)))
             pend.add(l, "corr_sph_recursion", f"sph:A:{l}:{m}:{t!r}:{p!r}", y,
                      f"generate_real_spherical_harmonics: (l,m)=({l},{m}) at theta={t!r}, phi={p!r} is {y!r}; model enclosure fails; definition gives {yo!r}",
-                     {"kind": "sph", "impl": "A", "l_max": Lc, "l": l, "m": m, "theta": t, "phi": p, "expected": yo}, found=not close(y, yo))
+                     {"kind": "sph", "impl": "A", "l_max": Lp, "l": l, "m": m, "theta": t, "phi": p, "expected": yo}, found=not close(y, yo))
         elif mt[0] == "der":
             _, j, i, k = mt
             l, m = lm_of(i)
@@ -463,7 +472,7 @@ def run(ctx: Ctx):
 
     pend.flush()
     ctx.cov["rule"] = (
-        f"interval correspondence: every (l,m) with l <= {Lc} at {len(angles)} angle pairs (both poles with several azimuths, equator, negative azimuth, azimuth > 2 pi, "
+        f"interval correspondence: every (l,m) with l <= 6 at {len(angles)} angle pairs{'' if quick else f' and 7 <= l <= {Lc} at {len(hi_angles)} of them'} (both poles with several azimuths, equator, negative azimuth, azimuth > 2 pi, "
         f"azimuth 0, near-pole, {3 if quick else 8} random; all exact dyadics) - Coq goal |model entry - observed| <= 5e-10 (1+|y|) proved by `interval` on the generated loop, "
         "SciPy-based routine compared with the recursion exactly in rationals with the same bound; both derivative blocks for l <= "
         f"{Ld}; solid harmonics l <= 4 incl. r = 0; convert_cart_to_sph at centres/axis/random points; gradient conversion incl. the r < 1e-10 and phi < 1e-10 branches; "
@@ -671,7 +680,8 @@ def search(ctx: Ctx, gu, mp, pend: Pending, angles):
 
     # ---- (g) gradient conversion: spherical gradient of a polynomial -> its Cartesian gradient
     for k in range(20 if quick else 200):
-        r, t, p = rng.uniform(0.2, 4), rng.uniform(-7, 7), rng.uniform(0.1, pi - 0.1)
+        r = rng.uniform(0.2, 4) if k % 3 else 10.0 ** rng.uniform(-6, -0.7)     # also small radii (the routine zeroes the angular part only below 1e-10)
+        t, p = rng.uniform(-7, 7), rng.uniform(0.1, pi - 0.1)
         a = [rng.uniform(-2, 2) for _ in range(6)]
         s, c, st, ct = math.sin(p), math.cos(p), math.sin(t), math.cos(t)
         x, y, z = r * s * ct, r * s * st, r * c
